@@ -193,11 +193,13 @@ class H2(Case):
     env = ENV_CT
     timeout_s = 300
 
-    def __init__(self, nenv, N, ctrls, bond=2, rank=4, start=0.0, stack=False):
+    def __init__(self, nenv, N, ctrls, bond=2, rank=4, start=0.0, stack=False, record_all=True):
         self.nenv, self.N, self.ctrls, self.bond, self.rank, self.start, self.stack = nenv, N, ctrls, bond, rank, start, stack
-        self.id = "H2/env%d_N%d_%s_b%d_r%d_t%s%s" % (nenv, N, ctrls, bond, rank, start, "_stack" if stack else "")
+        self.record_all = record_all
+        self.id = "H2/env%d_N%d_%s_b%d_r%d_t%s%s%s" % (nenv, N, ctrls, bond, rank, start, "_stack" if stack else "",
+                                                       "" if record_all else "_last")
         self.bounds = {"d": 2, "envs": nenv, "N": N, "controls": ctrls, "bond": bond, "rank": rank, "start_time": start,
-                       "stacked on one (step, side)": stack}
+                       "stacked on one (step, side)": stack, "record_all": record_all}
 
     def run(self, inp):
         from checks.c03 import build_pt
@@ -233,18 +235,33 @@ class H2(Case):
         with _quiet():
             dyn = sd.compute_dynamics(lib.FakeSystem(d, P1, P2), initial_state=rho0, start_time=self.start,
                                       process_tensor=pts if self.nenv != 1 else pts[0], control=control,
-                                      progress_type="silent", **kw)
+                                      record_all=self.record_all, progress_type="silent", **kw)
         states = lib.dynamics_states(dyn)
+        times = list(dyn._times)
         pre, post = {}, {}
         for (s, p, C) in regs:
             tgt = post if _truth(p) else pre
             cs = as_int(s)
             tgt[cs] = C if cs not in tgt else C @ tgt[cs]
-        obs = [Ob.holds("number of recorded states", len(states) == N + 1, key="count")]
+        def label_ok(t, n):
+            return abs(float(t) - (self.start + n * dt)) <= 1e-12
+        if not self.record_all:
+            # only the final state is returned: all controls before it have acted exactly once (post controls of
+            # steps < N included; a post control at step N is after the returned state), labelled with the final time
+            obs = [Ob.holds("exactly one state returned", len(states) == 1 and len(times) == 1, key="count")]
+            if len(states) == 1 and len(times) == 1:
+                exp = lib.oracle_pt_dynamics(rho0, envs, P1, P2, N, pre, post).reshape(d, d)
+                obs.append(ob_eq_poly(inp, "final state == evolution with each control applied once (record_all=False)",
+                                      states[0], exp, key="state"))
+                obs.append(Ob.holds("final state labelled start_time + num_steps*dt", label_ok(times[0], N), key="time_label"))
+            return obs
+        obs = [Ob.holds("number of recorded states", len(states) == N + 1 and len(times) == N + 1, key="count")]
         for n in range(min(N + 1, len(states))):
             exp = lib.oracle_pt_dynamics(rho0, envs, P1, P2, n, pre, post).reshape(d, d)
             obs.append(ob_eq_poly(inp, "state %d == evolution with each control applied once, pre before / post after the record" % n,
                                   states[n], exp, key="state"))
+        if len(times) == N + 1:
+            obs.append(Ob.holds("states labelled start_time + step*dt", all(label_ok(times[n], n) for n in range(N + 1)), key="time_label"))
         return obs
 
 
@@ -429,6 +446,8 @@ def cases(tier):
     cs += [H1("ab", 2, "float_antichrono")]
     # ---- H2 compute_dynamics
     cs += [H2(0, 2, "i"), H2(1, 2, "i"), H2(1, 3, "f", start=0.3), H2(1, 2, "ii"), H2(1, 2, "if", bond=1), H2(1, 2, "ii", stack=True, rank=3)]
+    cs += [H2(0, 2, "i", record_all=False), H2(1, 3, "i", record_all=False), H2(1, 2, "f", start=0.3, record_all=False),
+           H2(2, 2, "ii", bond=1, record_all=False)]
     # ---- H3 chains
     cs += [H3a(1, 2, "claim"), H3a(2, 2, "claim"), H3a(2, 2, "stack_order"), H3a(3, 1, "stack_order")]
     cs += [H3b(1, 2, "claim"), H3b(2, 1, "claim", bonds=(1, 1), pair=False), H3b(2, 1, "stack_order", bonds=(1, 1), pair=False)]
@@ -436,6 +455,8 @@ def cases(tier):
         cs += [H1("iii", 3), H1("iii", 2), H1("abc", 3, dt="sym"), H1("aab", 2, dt="sym"), H1("abb", 2), H1("iai", 2), H1("ab", 3, "float_antichrono", dt="sym"),
                H1("ia", 3, "mixed_same_step/each_acts_once", dt="sym", side="pre"), H1("ai", 3, "mixed_same_step/each_acts_once", dt="sym", side="post"),
                H1("ia", 3, "mixed_same_step/insertion_order", dt="sym", side="pre"), H1("ai", 3, "mixed_same_step/insertion_order", dt="sym", side="post")]
+        cs += [H2(0, 3, "ii", record_all=False), H2(1, 3, "if", record_all=False), H2(2, 3, "i", bond=1, record_all=False),
+               H2(1, 3, "ii", stack=True, record_all=False)]
         cs += [H2(0, 3, "ii"), H2(1, 3, "ii"), H2(2, 2, "i", bond=1), H2(1, 3, "ff", start=0.3, bond=1), H2(1, 3, "iii", stack=True, bond=1), H2(1, 2, "iii", bond=1)]
         cs += [H3a(3, 1, "claim"), H3a(3, 2, "stack_order"), H3b(2, 2, "claim", bonds=(1, 1)), H3b(1, 3, "claim", bonds=(1, 1), pair=False), H3b(1, 2, "claim", bonds=(2, 2)),
                H3b(3, 1, "stack_order", bonds=(1, 1), pair=False), H3b(2, 2, "stack_order", bonds=(2, 1))]
